@@ -184,7 +184,7 @@ def check_cases(cases: list[dict], rep: Report, known: dict) -> None:
 
 
 def k1_explains(c: dict, e, p) -> bool:
-    with common.k1_disabled():
+    with common.k1_disabled() as k1:
         outs = []
         for r in routes.routes_for(e, c["x"]):
             fresh = wire.build_raw(c["e"])
@@ -195,7 +195,7 @@ def k1_explains(c: dict, e, p) -> bool:
             outs.append(routes.run_route(r, fresh, c["x"] if r not in routes.DERIV_ROUTES else None, p,
                                          warm=[wire.build_point(c["warm"])] if c.get("warm") else ()))
     usable = [o for o in outs if not (o[0] == "err" and o[1] in ("overflow", "timeout", "recursion"))]
-    if not usable:
+    if not usable or not k1.hits:
         return False
     ref = usable[0]
     scale = max([abs(float(o[1])) for o in usable if o[0] == "ok"] + [1.0])
@@ -282,10 +282,10 @@ def expr_checks(c: dict, e, p, rep: Report) -> list:
 
 
 def k1_asexpr_explains(c: dict, x: str) -> bool:
-    with common.k1_disabled():
+    with common.k1_disabled() as k1:
         fl = call(lambda: sm.Differential(wire.build_raw(c["e"])).component(x).as_expression(), timeout=20)
         fe = call(lambda: sm.Differential(wire.build_raw(c["e"]), compute_early=True).component(x).as_expression(), timeout=20)
-    if fl[0] != "ok" or fe[0] != "ok":
+    if fl[0] != "ok" or fe[0] != "ok" or not k1.hits:
         return False
     p = wire.build_point(c["p"])
     a, b = call(fl[1].at, p), call(fe[1].at, p)
